@@ -61,6 +61,20 @@ CLAIMS = {
             "the cusum extrema are provably on the right side of S_0 = 0 (exposed the defect repaired by fix 0d3e4df).",
             "Not decided: the floating-point p-value formulas, the [0,1] range and the invariance clauses (runtime values). Shape rules (R-C12-CONSIST) compare normalised statements and are the most refactoring-sensitive part.",
             "DESIGN.md section 3 C12"),
+    "C09": ("proof", "symbolic evaluation to polynomial identities modulo n (congruence stripping of `% n`, inverse atom), piecewise region equivalence, converter writer/reader agreement",
+            "HiddenNumberParams: with si = invert(s, n) the returned pair satisfies a + b*d - si*(z + r*d) == 0 as a polynomial identity after stripping the reductions "
+            "modulo the one modulus self.n, hence k = a + b*d for every valid signature. TransformOrderLen equals RFC 6979 bits2int-then-reduce on all regions of "
+            "hlen vs qlen = n.bit_length(). ECDSAValues feeds r, s and the hash with 8*len of the same bytes; the single consumer pairs (a[i], b[i]) from one triple. "
+            "Bytes2Int/Int2Bytes are big-endian with minimal length, Hex2Bytes left-pads, PublicPoint keeps coordinate order.",
+            "Trusted: gmpy2.invert, int.from_bytes/to_bytes, the RFC transcription. Hypothesis: the ECDSA signing equation.",
+            "DESIGN.md section 3 C09"),
+    "C11": ("proof", "symbolic evaluation of every formula block to exact rational identities (congruence stripping, inverse clearing), path-wise dispatch tables, constant folding + checker-side EC arithmetic for the curve literals",
+            "All 16 formula blocks of EcCurve (Add, Double, Negate, Subtract, DoubleJacobian x2, AddJacobian, JacobianToAffine, BatchJacobianToX/Affine, BatchAddList, "
+            "BatchDouble, BatchAdd, BatchAddX, BatchAddSubtractX sum and difference) are proved equal to the chord-and-tangent law as exact identities of rational "
+            "functions in the coordinates, with shared inverses traced back to the denominators stored in the request loop; special-case dispatch (infinity, equal, "
+            "opposite, 2-torsion, missing shared inverse) is checked path by path; the nine curve literals are prime-field, non-singular, G on curve, n prime, n*G = inf, Hasse-consistent.",
+            "Trusted: gmpy2.invert contract, congruence of `% mod`. Not decided: the scalar-multiplication loops, the comb in BatchMultiplyG, Montgomery's array invariants in BatchInverse (its final self-check is runtime).",
+            "DESIGN.md section 3 C11"),
     "C16": ("other", "typestate / who-may-write analysis over the AST + symbolic path walk of all 24 Check bodies",
             "Decides, for every path of every Check body in the package, that each loop iteration records exactly one "
             "result entry on that iteration's artifact with an entry created in the same iteration, that the positive flag, "
